@@ -18,6 +18,9 @@ import (
 type c20Case struct {
 	Seq     []c20Snapshot
 	PanicAt map[string]map[int]bool
+	// Cohabit: a further traffic gate (c20SentinelName) lives in the namespace and changes
+	// its spec with every snapshot; it is judged like the generated names.
+	Cohabit bool
 }
 
 func (c c20Case) desc() map[string]interface{} {
@@ -28,7 +31,7 @@ func (c c20Case) desc() map[string]interface{} {
 		}
 	}
 	sort.Strings(p)
-	return map[string]interface{}{"snapshots": c20SeqString(c.Seq), "panic_at_callback": p}
+	return map[string]interface{}{"snapshots": c20SeqString(c.Seq), "panic_at_callback": p, "cohabitant_gate": c.Cohabit}
 }
 
 // c20Block is a finite space of sequences: all sequences of exactly Len snapshots in
@@ -82,9 +85,76 @@ func c20ReplayOfAnotherPart(t *testing.T) bool {
 	return v != "" && i >= 0 && v[:i] != t.Name()
 }
 
-// c20Stuck is set when a barrier watchdog fired: the remaining cases of the process are
-// skipped and the run is inconclusive.
+// c20Stuck is set when a watchdog fired (nothing could be established about the state of
+// the controller): the remaining cases of the process are skipped and the run is inconclusive.
 var c20Stuck bool
+
+// c20ChangeGroup: the transitions that make the controller touch a live object again.
+func c20ChangeGroup(tr string) string {
+	switch tr {
+	case "spec-change", "disappear":
+		return tr
+	case "kind-change", "kind-change-across-categories":
+		return "kind-change"
+	}
+	return ""
+}
+
+// c20Survivors keeps the Require() counters of one input class: a snapshot whose deletions
+// (disappear or change of kind) leave objects of exactly ONE category (pipelines only / traffic
+// gates only) live in the namespace, followed - in the same or in a later snapshot - by a
+// change or the removal of such a survivor.
+type c20Survivors struct {
+	pending map[int]string // name index -> class, survivor not touched again yet
+}
+
+func (sv *c20Survivors) observe(r *kit.Run, prev c20Snapshot, transitions []string, cohabit bool) {
+	if sv.pending == nil {
+		sv.pending = map[int]string{}
+	}
+	for i, cls := range sv.pending {
+		if g := c20ChangeGroup(transitions[i]); g != "" {
+			r.Count("tc_survivor_"+cls+"_later_"+g, 1)
+			delete(sv.pending, i)
+		}
+	}
+	deleted, pipes, gates := 0, 0, 0
+	var surv []int
+	for i, tr := range transitions {
+		switch tr {
+		case "disappear", "kind-change", "kind-change-across-categories":
+			deleted++
+		case "unchanged", "spec-change":
+			surv = append(surv, i)
+			if c20Category(prev[i].Kind) == "pipeline" {
+				pipes++
+			} else {
+				gates++
+			}
+		}
+	}
+	if cohabit {
+		gates++
+	}
+	if deleted == 0 || (pipes > 0) == (gates > 0) {
+		return
+	}
+	cls := "gates-only"
+	if pipes > 0 {
+		cls = "pipelines-only"
+	}
+	r.Count("tc_delete_leaves_"+cls, 1)
+	if cohabit {
+		r.Count("tc_delete_leaves_cohabitant_and_gates-only", 1)
+	}
+	for _, i := range surv {
+		if transitions[i] == "spec-change" {
+			r.Count("tc_survivor_"+cls+"_changed_in_same_snapshot", 1)
+		} else {
+			sv.pending[i] = cls
+		}
+	}
+}
 
 // c20Run executes one case against the real Supervisor and compares with the model after
 // every snapshot.
@@ -93,15 +163,15 @@ func c20Run(r *kit.Run, c c20Case) {
 		return // a watchdog fired earlier in this process: do not burn the outer budget
 	}
 	c20rec.reset()
-	rig, ok := c20NewRig(r.TmpDir())
+	rig, ok := c20NewRig(r.TmpDir(), c.Cohabit)
 	if !ok {
 		c20Stuck = true
-		r.Inconclusive("watchdog: supervisor did not finish its first event / the sentinel-only snapshot")
+		r.Inconclusive("watchdog: supervisor did not finish its first event")
 		return
 	}
-	c20rec.take()
 	c20rec.setScript(c.PanicAt)
 	defer func() {
+		r.Count("quiesce_goroutine_dumps", rig.polls)
 		if !rig.close() {
 			c20Stuck = true
 			r.Inconclusive("watchdog: Supervisor.Close did not return")
@@ -110,68 +180,88 @@ func c20Run(r *kit.Run, c c20Case) {
 	model := c20NewModel(len(c20Names))
 	hist := make([][]string, len(c20Names))
 	everPresent := make([]bool, len(c20Names))
-	for k, snap := range c.Seq {
+	var survivors c20Survivors
+	seq := c.Seq
+	first := 0
+	if c.Cohabit {
+		// the cohabitant is created alone, before any generated object exists (snapshot index -1)
+		seq = append([]c20Snapshot{make(c20Snapshot, len(c20Names))}, seq...)
+		first = -1
+	}
+	for j, snap := range seq {
+		k := j + first
 		if !rig.apply(snap) {
 			c20Stuck = true
-			r.Inconclusive(fmt.Sprintf("watchdog: sentinel callback not seen %v after snapshot %d of %s was pushed", c20Watchdog, k, c20SeqString(c.Seq)))
+			r.Inconclusive(fmt.Sprintf("watchdog: %v after snapshot %d of %s was pushed the syncer channel was not read or the controller's event loop did not become idle", c20Watchdog, k, c20SeqString(c.Seq)))
 			return
 		}
 		r.Count("barriers", 1)
 		events := c20rec.take()
 		prev := model.prev
-		life, transitions, panicked := model.consume(snap, events)
+		sent := rig.sentinelState()
+		life, transitions, panicked := model.consume(snap, sent, events)
 		views, dup := rig.liveViews()
-		mism := model.qualify(life, model.checkLiveSet(snap, views, dup))
+		mism := model.qualify(life, model.checkLiveSet(snap, sent, views, dup))
 		r.Eval(1)
 
-		// coverage and required observations
-		changed := 0
-		for i, tr := range transitions {
-			r.Count("t_"+tr, 1)
-			if tr == "appear" && everPresent[i] {
-				r.Count("t_reappear", 1)
-			}
-			if snap[i].Kind != 0 {
-				everPresent[i] = true
-			}
-			if tr != "absent" && tr != "unchanged" {
-				changed++
-			}
-			if tr != "absent" || len(hist[i]) > 0 {
-				hist[i] = append(hist[i], tr)
-			}
-		}
-		if changed >= 2 {
-			r.Count("coalesced_changes", 1)
-		}
-		sorted := append([]string(nil), transitions...)
-		sort.Strings(sorted)
-		sig := "snapshot:" + strings.Join(sorted, ",")
-		if len(panicked) > 0 {
-			r.Count("panics_fired", int64(len(panicked)))
-			others := 0
+		// coverage and required observations (not for the cohabitant's own start-up)
+		if k >= 0 {
+			changed := 0
 			for i, tr := range transitions {
-				if !panicked[c20Names[i]] && tr != "absent" && tr != "unchanged" {
-					others++
+				r.Count("t_"+tr, 1)
+				if tr == "appear" && everPresent[i] {
+					r.Count("t_reappear", 1)
+				}
+				if snap[i].Kind != 0 {
+					everPresent[i] = true
+				}
+				if tr != "absent" && tr != "unchanged" {
+					changed++
+				}
+				if tr != "absent" || len(hist[i]) > 0 {
+					hist[i] = append(hist[i], tr)
 				}
 			}
-			if others > 0 {
-				r.Count("panic_while_other_names_change", 1)
+			if changed >= 2 {
+				r.Count("coalesced_changes", 1)
 			}
-			ops := []string{}
-			for _, e := range events {
-				if e.Panicked {
-					ops = append(ops, e.Op)
+			survivors.observe(r, prev, transitions, c.Cohabit)
+			sorted := append([]string(nil), transitions...)
+			sort.Strings(sorted)
+			sig := "snapshot:" + strings.Join(sorted, ",")
+			if c.Cohabit {
+				sig = "cohabitant/" + sig
+				r.Count("tc_snapshots_with_cohabitant", 1)
+			} else {
+				r.Count("tc_snapshots_without_cohabitant", 1)
+			}
+			if len(panicked) > 0 {
+				r.Count("panics_fired", int64(len(panicked)))
+				others := 0
+				for i, tr := range transitions {
+					if !panicked[c20Names[i]] && tr != "absent" && tr != "unchanged" {
+						others++
+					}
 				}
+				if others > 0 {
+					r.Count("panic_while_other_names_change", 1)
+				}
+				ops := []string{}
+				for _, e := range events {
+					if e.Panicked {
+						ops = append(ops, e.Op)
+					}
+				}
+				sort.Strings(ops)
+				sig += fmt.Sprintf("/panic-in:%s/others-changing:%d", strings.Join(ops, "+"), others)
 			}
-			sort.Strings(ops)
-			sig += fmt.Sprintf("/panic-in:%s/others-changing:%d", strings.Join(ops, "+"), others)
+			r.Cover(sig)
 		}
-		r.Cover(sig)
 		r.Count("callbacks_seen", int64(len(events)))
 
 		for _, mm := range mism {
 			mm.Detail["sequence"] = c20SeqString(c.Seq)
+			mm.Detail["cohabitant_gate"] = c.Cohabit
 			mm.Detail["at_snapshot_index"] = k
 			mm.Detail["previous_snapshot"] = prev.String()
 			mm.Detail["snapshot"] = snap.String()
@@ -219,6 +309,10 @@ func TestVerif_C20_TC_Exhaustive(t *testing.T) {
 			c20Block{2, c20Full, 2},
 			c20Block{3, c20Mid, 2},
 			c20Block{2, c20Min, 3},
+			// two names of ONE category over three snapshots: a delete always leaves one category
+			// only, and the survivor can change or go in the snapshot after
+			c20Block{2, []int{0, 1, 2}, 3},
+			c20Block{2, []int{0, 4, 5}, 3},
 		)
 	}
 	desc := make([]string, len(blocks))
@@ -228,7 +322,7 @@ func TestVerif_C20_TC_Exhaustive(t *testing.T) {
 		total += b.size()
 	}
 	r.Rule("part (b): complete enumeration, each sequence on a fresh Supervisor + TrafficController + RawConfigTrafficController (MustNew on a mocked cluster, snapshots pushed through the syncer channel), of: " + strings.Join(desc, "; ") +
-		". State of a name = absent or (real Pipeline P carrying a recording filter | test-only traffic gate kind GA | GB, spec variant 1..3). After every snapshot (sentinel traffic gate as barrier) the recorded Init/Inherit/Close calls per name, the instances involved and two live-set views (TrafficController namespace, the controller's watcher.entities) are compared with the lifecycle model. distinct = multiset of per-name transitions of a snapshot, and per-name transition histories")
+		". State of a name = absent or (real Pipeline P carrying a recording filter | test-only traffic gate kind GA | GB, spec variant 1..3). The namespace holds exactly the objects of the snapshot (no helper object), so a deletion can leave pipelines only, traffic gates only or nothing. Barrier after every snapshot, independent of any lifecycle callback: the snapshot is pushed three times through the unbuffered syncer channel (3rd push accepted => the registry has emitted every event of the first two), then the controller's event channel must be empty and its run loop parked in its own select (goroutine dump, a stop-the-world cut); a watchdog on that => inconclusive. Then the recorded Init/Inherit/Close calls per name, the instances involved and two live-set views (TrafficController namespace, the controller's watcher.entities) are compared with the lifecycle model. distinct = multiset of per-name transitions of a snapshot, and per-name transition histories")
 	r.Assume("a lifecycle callback that panics still counts as the one call the property asks for; the order of Close and Init in a kind change is not prescribed; Supervisor shutdown is not judged; a Pipeline name is no longer judged in later snapshots once a scripted panic has fired inside its recording filter (the pipeline then drops the filter, the observation point is gone)")
 	r.Exhaustive(true)
 	i := 0
@@ -247,6 +341,9 @@ func TestVerif_C20_TC_Exhaustive(t *testing.T) {
 	}
 	r.Note("enumerated %d sequences in %d blocks", total, len(blocks))
 	c20RequireAll(r)
+	for _, k := range []string{"tc_delete_leaves_pipelines-only", "tc_delete_leaves_gates-only", "tc_survivor_pipelines-only_changed_in_same_snapshot", "tc_snapshots_without_cohabitant"} {
+		r.Require(k, 1)
+	}
 }
 
 // c20ExpectedCalls: how many callbacks the model expects per name over a sequence (used
@@ -296,14 +393,14 @@ func TestVerif_C20_TC_Sampled(t *testing.T) {
 	}
 	r := kit.Start(t, "C20")
 	defer r.Finish()
-	r.Rule("seeded random sequences of 4..8 snapshots over 3 names x (absent | Pipeline, gate A, gate B x 3 variants), biased towards unchanged / variant change / kind change of live names; same oracle as the enumerated part")
+	r.Rule("seeded random sequences of 4..8 snapshots over 3 names x (absent | Pipeline, gate A, gate B x 3 variants), biased towards unchanged / variant change / kind change of live names; every second case runs with a cohabitant (a further traffic gate in the same namespace whose spec changes in every snapshot and which is judged by the same model: one Inherit from its live generation per snapshot, always in the live set); same callback-independent barrier and same oracle as the enumerated part")
 	n := r.N(200, 5000)
 	for i := 0; i < n; i++ {
 		if !r.Mine(i) {
 			continue
 		}
 		rng := r.CaseRand(i)
-		c := c20Case{Seq: c20RandomSeq(rng, 4+rng.Intn(5))}
+		c := c20Case{Seq: c20RandomSeq(rng, 4+rng.Intn(5)), Cohabit: i%2 == 1}
 		r.Case(i, c.desc())
 		c20Run(r, c)
 		if i < 2 {
@@ -311,6 +408,148 @@ func TestVerif_C20_TC_Sampled(t *testing.T) {
 		}
 	}
 	c20RequireAll(r)
+	r.Require("tc_snapshots_with_cohabitant", 1)
+	r.Require("tc_snapshots_without_cohabitant", 1)
+}
+
+// c20SurvivorSeq generates one sequence of the class "a deletion leaves objects of exactly
+// one category live, then a survivor is changed or removed":
+//
+//	populate (in one or two snapshots) -> delete the victims (everything of the other category
+//	and possibly some of the survivors' category; a victim disappears or changes its kind), in
+//	1 of 3 cases together with a spec change of a survivor -> 0..2 unchanged snapshots ->
+//	every survivor changes spec / changes kind / disappears / stays (at least one is touched)
+//	-> optionally one more snapshot (victims come back, survivors change again).
+//
+// onlyPipelines chooses the surviving category.  With a cohabitant gate in the namespace the
+// gate category is never empty, so pipelines-only sequences are generated for cases without one.
+func c20SurvivorSeq(rng *rand.Rand, onlyPipelines bool) []c20Snapshot {
+	n := len(c20Names)
+	perm := rng.Perm(n)
+	live := 2 + rng.Intn(n-1) // 2..n objects
+	surv := 1 + rng.Intn(live-1)
+	survKind := func() int {
+		if onlyPipelines {
+			return 1
+		}
+		return 2 + rng.Intn(2)
+	}
+	full := make(c20Snapshot, n)
+	isSurv := make([]bool, n)
+	for j := 0; j < live; j++ {
+		i := perm[j]
+		if j < surv {
+			isSurv[i] = true
+			full[i] = c20State{Kind: survKind(), Variant: 1 + rng.Intn(3)}
+		} else {
+			// both happen: the other category is populated and then emptied, or never populated
+			full[i] = c20State{Kind: 1 + rng.Intn(3), Variant: 1 + rng.Intn(3)}
+		}
+	}
+	var seq []c20Snapshot
+	clone := func(s c20Snapshot) c20Snapshot { return append(c20Snapshot(nil), s...) }
+	if rng.Intn(3) == 0 { // populate in two steps
+		half := clone(full)
+		half[perm[rng.Intn(live)]] = c20State{}
+		seq = append(seq, half)
+	}
+	seq = append(seq, clone(full))
+	variantOther := func(v int) int { return 1 + (v+rng.Intn(2))%3 }
+	// the deleting snapshot
+	del := clone(full)
+	for j := surv; j < live; j++ {
+		i := perm[j]
+		if rng.Intn(4) == 0 && !onlyPipelines && full[i].Kind != 1 {
+			// a victim of the survivors' category (gates) changes its kind: delete + create
+			del[i] = c20State{Kind: 5 - full[i].Kind, Variant: full[i].Variant}
+		} else {
+			del[i] = c20State{}
+		}
+	}
+	if rng.Intn(3) == 0 {
+		i := perm[rng.Intn(surv)]
+		del[i].Variant = variantOther(del[i].Variant)
+	}
+	seq = append(seq, del)
+	cur := del
+	for g := []int{0, 0, 0, 1, 1, 2}[rng.Intn(6)]; g > 0; g-- {
+		seq = append(seq, clone(cur))
+	}
+	// the survivors are touched
+	next := clone(cur)
+	touched := false
+	for !touched {
+		for j := 0; j < surv; j++ {
+			i := perm[j]
+			switch rng.Intn(5) {
+			case 0:
+				next[i] = cur[i]
+			case 1, 2:
+				next[i] = c20State{Kind: cur[i].Kind, Variant: variantOther(cur[i].Variant)}
+			case 3:
+				next[i] = c20State{}
+			case 4:
+				next[i] = c20State{Kind: 1 + (cur[i].Kind+rng.Intn(2))%3, Variant: cur[i].Variant}
+			}
+			if next[i] != cur[i] {
+				touched = true
+			}
+		}
+	}
+	seq = append(seq, next)
+	if rng.Intn(2) == 0 {
+		last := clone(next)
+		for j := 0; j < live; j++ {
+			i := perm[j]
+			switch {
+			case !isSurv[i] && rng.Intn(2) == 0:
+				last[i] = full[i] // a victim comes back
+			case last[i].Kind != 0 && rng.Intn(2) == 0:
+				last[i].Variant = variantOther(last[i].Variant)
+			}
+		}
+		seq = append(seq, last)
+	}
+	return seq
+}
+
+// TestVerif_C20_TC_Survivors: objects that survive the deletion of their neighbours.
+func TestVerif_C20_TC_Survivors(t *testing.T) {
+	if c20ReplayOfAnotherPart(t) {
+		t.Skip("replaying a case of another part")
+	}
+	r := kit.Start(t, "C20")
+	defer r.Finish()
+	r.Rule("seeded sequences of 3..8 snapshots over 3 names of the class: 2..3 objects live in the namespace; a snapshot deletes some of them (disappear or change of kind) such that objects of exactly one category stay live - pipelines only (cases without cohabitant) or traffic gates only (with and without the cohabitant gate, see the sampled part) - in 1 of 3 cases changing a survivor's spec in the same snapshot; after 0..2 unchanged snapshots every survivor changes its spec, changes its kind, disappears or stays (at least one is touched); optionally the victims come back and the survivors change once more. Same callback-independent barrier and same oracle (lifecycle model per name incl. the cohabitant, live-set views of TrafficController namespace and watcher) as the enumerated part. distinct as there")
+	n := r.N(160, 6000)
+	for i := 0; i < n; i++ {
+		if !r.Mine(i) {
+			continue
+		}
+		rng := r.CaseRand(i)
+		c := c20Case{}
+		switch i % 4 {
+		case 0, 2:
+			c.Seq = c20SurvivorSeq(rng, true)
+		case 1:
+			c.Seq = c20SurvivorSeq(rng, false)
+		case 3:
+			c.Seq, c.Cohabit = c20SurvivorSeq(rng, false), true
+		}
+		r.Case(i, c.desc())
+		c20Run(r, c)
+		if i < 4 {
+			r.Sample(c.desc())
+		}
+	}
+	for _, cls := range []string{"pipelines-only", "gates-only"} {
+		r.Require("tc_delete_leaves_"+cls, 1)
+		for _, then := range []string{"changed_in_same_snapshot", "later_spec-change", "later_disappear", "later_kind-change"} {
+			r.Require("tc_survivor_"+cls+"_"+then, 1)
+		}
+	}
+	r.Require("tc_delete_leaves_cohabitant_and_gates-only", 1)
+	r.Require("barriers", 1)
 }
 
 // TestVerif_C20_Panics: scripted panics in Init / Inherit / Close.
@@ -321,7 +560,7 @@ func TestVerif_C20_TC_Panics(t *testing.T) {
 	r := kit.Start(t, "C20")
 	defer r.Finish()
 	block := c20Block{2, c20Mid, 2}
-	r.Rule("(a) every sequence of " + block.String() + " x every single (name, k) such that the k-th lifecycle callback on that name panics, k up to the number of calls the model expects for the name; (b) seeded sequences of 2..6 snapshots over 3 names with 1..3 scripted panics. The lifecycle model does not depend on panics: all names of the snapshot, including the panicking one, must still show exactly the expected calls and the live set must equal the snapshot")
+	r.Rule("(a) every sequence of " + block.String() + " x every single (name, k) such that the k-th lifecycle callback on that name panics, k up to the number of calls the model expects for the name; (b) seeded sequences of 2..6 snapshots over 3 names with 1..3 scripted panics. Half of the cases run with the cohabitant gate of the sampled part (never scripted to panic, judged). The lifecycle model does not depend on panics: all names of the snapshot, including the panicking one, must still show exactly the expected calls and the live set must equal the snapshot")
 	i := 0
 	for idx := 0; idx < block.size(); idx++ {
 		seq := block.decode(idx)
@@ -335,7 +574,7 @@ func TestVerif_C20_TC_Panics(t *testing.T) {
 				if !r.Mine(i) {
 					continue
 				}
-				c := c20Case{Seq: seq, PanicAt: map[string]map[int]bool{name: {k: true}}}
+				c := c20Case{Seq: seq, PanicAt: map[string]map[int]bool{name: {k: true}}, Cohabit: (i/4)%2 == 1}
 				r.Case(i, c.desc())
 				c20Run(r, c)
 			}
@@ -363,7 +602,7 @@ func TestVerif_C20_TC_Panics(t *testing.T) {
 			}
 			pa[name][1+rng.Intn(exp[name])] = true
 		}
-		c := c20Case{Seq: seq, PanicAt: pa}
+		c := c20Case{Seq: seq, PanicAt: pa, Cohabit: j%2 == 1}
 		r.Case(i, c.desc())
 		c20Run(r, c)
 		if j < 2 {
